@@ -4,27 +4,121 @@ from pathlib import Path
 
 VERIF = Path(__file__).resolve().parent.parent
 
+TIE = ("Tied to /repo/src on every run: the same int-coded call sequences are executed on the real code (virtual clock) and on "
+       "the OCaml extraction of the Coq model and compared on this property's observables; an independent oracle reads the "
+       "property text on the implementation traces and turns any failure into a replay.")
+TB = ("Trusted: Coq 8.16.1 kernel + VM (vm_compute); no axioms (Print Assumptions of every property theorem checked each run: "
+      "'Closed under the global context'); hand-written Gallina model validated by the correspondence run; extraction "
+      "(ExtrOcamlBasic only, no Extract Constant/Inductive) + runner.ml; gen/Tables.v ast reader; Python harness (virtual clock, "
+      "PDU<->record glue, generators, oracles); modelled-not-verified: spacepackets, crcmod, CPython, host OS.")
+
+
+def _c(technique, text, design, note=""):
+    return dict(technique=technique, text=text + " " + TIE, note=(note + " " if note else "") + TB, design=design)
+
+
 CHECKS = {
-    "C18": dict(
-        technique="Coq proof (induction over operation sequences, refinement to a set of bytes) + differential correspondence model/impl",
-        text="Machine-checked proof in Coq 8.16.1 (props/C18.v): every tracker operation of the Gallina model LostSeg.v preserves the "
-             "ascending/non-empty/disjoint invariant and refines the exact set of bytes, for all operation sequences (unbounded, by "
-             "induction); straddling removals are refused. The model is tied to dest.py::LostSegmentTracker on every run by a "
-             "differential run (exhaustive small scope + random) and an independent set-of-bytes oracle.",
-        note="Trusted: Coq kernel+VM; hand-written model LostSeg.v (python dict order semantics) validated by the correspondence run; "
-             "extraction (ExtrOcamlBasic only) and runner.ml; no axioms (Print Assumptions checked each run).",
-        design="6/C18"),
-    "C09": dict(
-        technique="Coq proof (loop invariant over the chunk loop, algebra of fold_left; word-sum identity) + differential correspondence on real files",
-        text="Machine-checked proof (props/C09.v): for all contents, prefix lengths and positive chunk lengths the model of "
-             "calculate_checksum returns the CRC-32 / CRC-32C of the prefix (chunk independent), the modular word sum mod 2^32, four "
-             "zero bytes for NULL; verify is true iff equal. CRC spec anchored to the catalogue check values. Tie: NativeFilestore on "
-             "real files vs extracted model vs zlib/independent CRC-32C/word-sum oracles; EOF checksum on source traces.",
-        note="Trusted: Coq kernel+VM; crcmod modelled by the bit-serial CRC of Crc.v (validated each run); extraction+runner; no axioms.",
-        design="6/C09"),
+    "C01": _c("Coq proof of the receiver's verification/completion lemmas (partial) + correspondence + read-back oracle under arbitrary fault schedules",
+              "PARTIAL proof (props/C01.v): the receiver sets DATA_COMPLETE only through a successful checksum verification of the "
+              "destination file as it is then (or metadata-only); equal CRC => identical or genuine collision; rejected writes are "
+              "never stored; the sender's report copies the Finished PDU. Not proved as one theorem: the composition over the "
+              "two-handler system under arbitrary fault schedules - the check evaluates exactly that on the implementation (file read "
+              "back at every success report, either side, drop/dup/delay/bit-flip/write-reject schedules, any number of faults).",
+              "6/C01"),
+    "C02": _c("Coq: kernel-checked exhaustive evaluation of the executable two-handler system (bounded instance, 1152 transfers) + unbounded sender theorem (C07) + correspondence",
+              "Proof (props/C02.v): BOUNDED INSTANCE - vm_compute inside the kernel runs System.v (both handler models, link, canonical "
+              "pacing) for every point of 2 modes x closure x 4 checksum types x 4 segment lengths x NAK mode x 9 sizes and checks "
+              "quiescence, identical file, exactly one successful Transaction-Finished per side, no fault callback, no exception. The "
+              "unbounded two-sided theorem is not proved; the sender half is C07's (all files, all configurations).", "6/C02"),
+    "C03": _c("Coq: kernel-checked exhaustive evaluation of all schedules with K<=2 link faults (the bound the property names) and K=3 on a small file + unbounded retry/NAK lemmas (C04/C06/C08) + correspondence",
+              "PARTIAL proof (props/C03.v): BOUNDED INSTANCES - every schedule of <=2 link faults (drop/duplicate/delay of any PDU "
+              "occurrence, either direction) on files of 0/5/9 bytes, both NAK modes, closure on/off, limits K+3, and every schedule "
+              "of 3 faults on a 5-byte file, evaluated inside the kernel on System.v: delivered, both users successful, both idle. The "
+              "general liveness theorem (all K, all interleavings) is not proved.", "6/C03"),
+    "C04": _c("Coq proof (case analysis of the three retry procedures, for all limits N and intervals) + correspondence + virtual-clock oracle",
+              "Proof (props/C04.v): EOF-awaiting-ACK, Finished-awaiting-ACK and the NAK procedure: nothing before expiry; expiry k<N "
+              "re-sends the same PDU and counts; expiry N declares the limit fault exactly then; during a cancel exchange the limit "
+              "abandons (idle); ACK/progress ends or resets the procedure. For every N and interval.", "6/C04"),
+    "C05": _c("Coq proof (whole-state-machine frame property by compositional reasoning + write-model lemmas) + correspondence + write-model oracle",
+              "Proof (props/C05.v): for every call on every state no path other than the (resolved) destination path changes; an "
+              "accepted File Data PDU turns the file into write_at old offset data (zero fill); pre-Metadata data is never written; "
+              "Metadata creates/truncates; deletion only on cancel+disposition+incomplete. Per-call theorems that compose over any history.",
+              "6/C05"),
+    "C06": _c("Coq proof of the NAK construction lemmas (partial: history-level tracker invariant not proved) + correspondence + interval-set oracle",
+              "PARTIAL proof (props/C06.v with C18): NAK splitting requests exactly metadata-marker + tracked ranges in order, every "
+              "PDU within max_packet_len, scope (0, EOF size); gap detection / removal step lemmas; nothing missing => no NAK. Not "
+              "proved: the invariant 'tracker = extent minus stored' over all arrival orders (evaluated by the oracle on every explored history).",
+              "6/C06"),
+    "C07": _c("Coq proof by induction over the tiles of the file (unbounded: all contents, sizes, configurations) + correspondence + stream oracle",
+              "Proof (props/C07.v): for every file and configuration with effective segment length >= 1 the calls of an accepted put "
+              "emit exactly [Metadata]; one File Data PDU per call tiling [0,size) ascending; [EOF(size, checksum)], all with one "
+              "header; length bounds for File Data / ACK (EOF when the packet can hold one: known finding F19 otherwise).", "6/C07"),
+    "C08": _c("Coq proof (induction on the chunk loop; unbounded) + correspondence + retransmission oracle",
+              "Proof (props/C08.v): a valid request yields exactly the tiles of [start,end) with the file's bytes; (0,0) the Metadata "
+              "PDU; inverted / beyond-progress requests raise InvalidNakPdu and queue nothing; a NAK of valid requests yields their "
+              "concatenation in order and remembers the step; resumption restores it; progress/EOF state untouched.", "6/C08"),
+    "C09": _c("Coq proof (loop invariant over the chunk loop, fold_left algebra, word-sum identity; unbounded) + correspondence on real files",
+              "Proof (props/C09.v): for all contents, prefix lengths and positive chunk lengths calculate_checksum returns the CRC-32 / "
+              "CRC-32C of the prefix (chunk independent), the modular word sum mod 2^32, four zero bytes for NULL; verify is true iff "
+              "equal; CRC spec anchored to the catalogue check values; EOF checksum checked on source traces.", "6/C09",
+              "crcmod modelled by the bit-serial CRC of Crc.v (validated each run)."),
+    "C10": _c("Coq proof of the admission/guard theorems (partial: 'no internal error for every history' not proved) + correspondence on hostile streams + exception-class oracle",
+              "PARTIAL proof (props/C10.v): a PDU rejected by the admission checks returns the very same state; admission raises "
+              "library exceptions only; 'unretrieved PDUs' only if the queue was non-empty (sender: whole state machine; receiver: "
+              "guards + ready-counter invariant over the whole state machine). Not proved: absence of internal errors for all "
+              "histories (oracle: every exception class on hostile histories must be a library exception; known finding F9).", "6/C10"),
+    "C11": _c("Coq proof of the idle-is-fresh invariants over both whole state machines + differential run fresh vs reused vs sibling handlers + correspondence",
+              "Proof (props/C11.v): whenever a handler is idle its per-transaction parameter block is the freshly constructed one "
+              "(invariant of every API call, hence every history); a new transaction ignores whatever was there. Instance isolation "
+              "holds by construction in the model; the part the code can violate (shared mutable defaults) is what the differential "
+              "run tests: same follow-up transaction on fresh / reused / sibling-busy handlers.", "6/C11"),
+    "C12": _c("Coq proof (case analysis of cancel_request, EOF(cancel) handling and the cancelled completion) + correspondence + cancel oracle",
+              "Proof (props/C12.v): cancel returns true iff an active transaction has that id (unchanged state otherwise); sender: "
+              "next PDU is EOF(Cancel Request Received, size = progress, checksum of that prefix), file-data step left for good; "
+              "receiver: the next call issues Transaction-Finished and, iff closure/acknowledged, the Finished PDU with the local "
+              "entity as fault location; EOF(cancel) finishes with its condition and the sender as fault location; deletion iff disposition.",
+              "6/C12"),
+    "C13": _c("Coq proof (check-limit step lemmas for every limit L + counting induction) + correspondence + schedule-space oracle",
+              "Proof (props/C13.v): EOF before all data does not finish the transaction (check timer starts, counter 0); expiry with "
+              "complete data completes; expiry k<L only counts; expiry L declares Check Limit Reached exactly then; after k expiries the "
+              "counter is k (any L); sender with closure declares Check Limit Reached when its timer expires without a Finished PDU.",
+              "6/C13"),
+    "C14": _c("Coq proof (dispatch lemmas for every condition/handler code on both handlers; table read from mib.py each run) + correspondence + callback oracle",
+              "Proof (props/C14.v): declare_fault calls exactly the configured callback once with (id, condition, progress) and ignores / "
+              "cancels (condition into EOF/Finished) / abandons (idle, nothing sent); no callback without transaction id; conditions "
+              "outside the table are refused, table unchanged; default table facts. Known findings F15, F22 (double declaration).",
+              "6/C14"),
+    "C15": _c("Coq proof (gating invariant over both whole state machines by compositional reasoning + parameter lemmas) + correspondence + indication oracle",
+              "Proof (props/C15.v): every event any call adds is gated by its switch (all inputs, all states); Metadata-Recv / "
+              "File-Segment-Recv parameters equal the PDU's; Transaction-Finished equals the Finished PDU of that completion; the "
+              "sender copies the Finished PDU; originating id surfaced unless a proxy put response is present. Known finding F21.",
+              "6/C15"),
+    "C16": _c("Coq proof of representation independence of both handlers w.r.t. the filestore (partial: runtime half by the tie) + native/in-memory/decoy differential run with host-access audit",
+              "PARTIAL: the theorem (props/C16.v) shows the model handlers observe the filestore only through its interface. That the "
+              "Python code never touches the host behind the filestore cannot be exhibited by a Gallina model: the check runs every "
+              "transfer on the native filestore, on an in-memory VirtualFilestore (paths absent on the host) and on the in-memory "
+              "store with decoy host files, compares the traces, records host access from cfdppy/handler frames.", "6/C16"),
+    "C17": _c("Coq proof of the laws of the reference file-system model + refinement check NativeFilestore vs model on the host file system",
+              "Proof (props/C17.v): refused/failing ops leave the tree unchanged; success codes only with the documented effect; ops "
+              "touch only the paths they name; specific refusal codes; write/read round trip and frame. The refinement claim itself "
+              "(NativeFilestore behaves like Fs.v) is checked by differential runs on real directories with full tree snapshots.",
+              "6/C17"),
+    "C18": _c("Coq proof (induction over operation sequences, refinement to a set of bytes; unbounded) + exhaustive small-scope correspondence",
+              "Proof (props/C18.v): every tracker operation preserves ascending/non-empty/disjoint and refines the exact set of bytes, "
+              "for all operation sequences; coalescing keeps the set and leaves no adjacent ranges; removal reports changes; straddling "
+              "removals are refused unchanged.", "6/C18"),
+    "C19": _c("Coq proof (case analysis of put_request / transaction_start; monotone sequence counter over the whole state machine) + correspondence + put oracle",
+              "Proof (props/C19.v): busy => false and the very same state; missing file / unknown entity => documented error, idle, "
+              "reusable; mode/closure from the request else the MIB; segment length = min(configured, packet allows), ValueError when "
+              "no base PDU fits; next provider value per transaction, counter never decreases.", "6/C19"),
+    "C20": _c("Coq proof over ALL PDUs and ALL handler states (routing table generated from common.py each run) + complete enumeration on the implementation",
+              "Proof (props/C20.v): get_packet_destination equals the property's table; a PDU routed to the other handler makes "
+              "state_machine raise a library exception and return the same state; a PDU routed here is never refused as foreign; "
+              "acknowledge_inactive_eof_pdu. The finite space of the property is enumerated completely on the implementation.",
+              "6/C20"),
 }
 
-NOT_YET = {f"C{i:02d}": "check under construction in this round (see DESIGN.md section 11); not claimed yet" for i in range(1, 21)}
+NOT_APPLICABLE = {}
 
 
 def manifest():
@@ -42,22 +136,24 @@ def manifest():
             "level_note": c["note"],
             "technique": c["technique"],
         })
-    na = [{"property_id": p, "reason": r} for p, r in sorted(NOT_YET.items()) if p not in CHECKS]
+    na = [{"property_id": p, "reason": r} for p, r in sorted(NOT_APPLICABLE.items())]
     return {
         "version": 1,
         "setup_cmd": "./bin/setup",
-        "hooks": {"guard": "CFDPPY_VERIF", "enable": "none needed: time is virtualised from the harness "
-                  "(spacepackets.countdown.time_ms replaced at run time); no hook commits in /repo",
+        "hooks": {"guard": "CFDPPY_VERIF",
+                  "enable": "none needed: time is virtualised from the harness (spacepackets.countdown.time_ms replaced at run "
+                            "time); there are no hook commits in /repo, only unguarded 'fix:' commits (see known_findings.json)",
                   "baseline_off_cmd": "cd /repo && /venv/bin/python -m pytest -ra -q -p no:cacheprovider --timeout=900 "
                                       "--continue-on-collection-errors",
                   "source_commits": [], "add_only": True},
         "engines": [{"name": "coq-model+correspondence", "path": "/verif/coq",
                      "serves_properties": sorted(CHECKS),
-                     "kind_free_text": "Coq 8.16.1 development (hand-written Gallina model + theorems), OCaml runner extracted "
-                                       "from the model, Python differential harness and oracles"}],
+                     "kind_free_text": "Coq 8.16.1 development (hand-written Gallina model of cfdp-py + theorems per property), "
+                                       "OCaml runner extracted from the model, Python differential harness and oracles"}],
         "checks": checks,
         "not_applicable": na,
-        "notes": "All checks: bin/check <id> quick|thorough. Known findings: /verif/known_findings.json. See DESIGN.md.",
+        "notes": "All checks: bin/check <id> quick|thorough|--replay <file>. Known findings: /verif/known_findings.json. "
+                 "Design, trusted base, seeded-change results: DESIGN.md.",
     }
 
 
